@@ -208,7 +208,7 @@ func checkC03(c c03Case, ctx *vCtx) *vFailure {
 				}
 			}
 			tol := vRatMul(big.NewRat(int64(n)+1, 200), big.NewRat(1, 1))
-			tol.Add(tol, vRatMul(vRelSlack, vRatAdd(big.NewRat(1, 1), grand.Mag)))
+			tol.Add(tol, vRatMul(vRelSlack(grand.N), vRatAdd(big.NewRat(1, 1), grand.Mag)))
 			if c.S.Exact {
 				tol = new(big.Rat)
 			}
@@ -234,7 +234,7 @@ func checkC03(c c03Case, ctx *vCtx) *vFailure {
 				}
 			}
 			tol := vRatMul(big.NewRat(int64(n)+1, 200), big.NewRat(1, 1))
-			tol.Add(tol, vRatMul(vRelSlack, vRatAdd(big.NewRat(1, 1), grand.Mag)))
+			tol.Add(tol, vRatMul(vRelSlack(grand.N), vRatAdd(big.NewRat(1, 1), grand.Mag)))
 			if c.S.Exact {
 				tol = new(big.Rat)
 			}
